@@ -31,6 +31,8 @@ EXISTING = [
     [mrec("known", "h:/a/b_", [], ["k:/"]), mrec("other", "h:/c/")],
     # URI prefixes that do not end at a delimiter: recognised and unrecognised URIs share a candidate prefix
     [mrec("k2", "h:/a/b_1"), mrec("k3", "h:/a/2", [], ["h:/m::1"])],
+    # a supplied converter whose own prefixes look like generated names (ns1, q2): numbering must not care
+    [mrec("ns1", "unrelated:/", ["q2", "ns3"])],
 ]
 DEFAULT_DELIMS = ("#", "/", "_")
 
@@ -76,6 +78,11 @@ def check(seq, di, cutoff, metaprefix, ei, ctx=None, want=None):
     where = f"discover({list(seq)}, delimiters={DELIMS[di]}, cutoff={cutoff}, metaprefix={metaprefix!r}, converter={'given' if existing else None})"
     try:
         res = discover(list(seq), delimiters=DELIMS[di], cutoff=cutoff, metaprefix=metaprefix, converter=conv_in)
+        if len(seq) >= 2 and (cutoff in (None, 2)):
+            # the input may be any iterable, also a one-shot one
+            res_it = discover((u for u in seq), delimiters=DELIMS[di], cutoff=cutoff, metaprefix=metaprefix, converter=conv_in)
+            if record_set(res_it) != record_set(res):
+                return [("result-depends-on-the-kind-of-iterable", f"{where}: given a generator the result has {len(res_it.records)} records, given a list {len(res.records)}")]
     except Exception as e:  # noqa
         return [(f"raises/{type(e).__name__}", f"{where}: {type(e).__name__}: {str(e)[:100]}")]
     if want is None:
@@ -167,7 +174,7 @@ def describe(tier):
         "level": "model_checking",
         "rule": f"24-string URI alphabet (nested prefixes, '#', '/', '_' tails, non-alphanumeric and empty tails, delimiter-free, empty, non-ASCII); every "
         f"set of <=3 URIs x every sequence of length <= {4 if tier == 'thorough' else 3} with exactly that support (all orders and repetitions) x 5 delimiter "
-        "lists (two with multi-character delimiters) x cutoff in {None,0,1,2,3} x 2 metaprefixes x without / with one of two pre-existing converters; every 4-element set in every order with "
+        "lists (two with multi-character delimiters) x cutoff in {None,0,1,2,3} x 2 metaprefixes x without / with one of three pre-existing converters (one whose prefixes look like generated names); lists and one-shot generators; every 4-element set in every order with "
         f"{'the full' if tier == 'thorough' else 'two'} parameter combination(s); result compared with the reference grouping of the SET; "
         "distinct_nontrivial = (set, parameters) cases with >= 2 discovered prefixes and >= 2 sequences",
         "bounds": {"set_size": 4, "sequence_len": 4 if tier == "thorough" else 3, "alphabet": len(URIS)},
